@@ -23,8 +23,13 @@ T5 == << <<"changed", "x">>, <<"time">>, <<"get", "y">>, <<"edge", "x", 0>>, <<"
 T6 == << <<"delay", 7>>, <<"set", "a", 1>>, <<"get", "x">> >>
 T7 == << <<"changed", "x">>, <<"set", "b", 1>>, <<"get", "y">> >>
 T8 == << <<"delay", 7>>, <<"get", "y">>, <<"get", "x">>, <<"tick">>, <<"get", "rq">> >>
-AllScriptSets == {<<S1>>, <<S2>>, <<S3>>, <<T1, T2>>, <<T2, T1>>, <<T3, T4>>, <<T4, T3>>, <<T4, T5>>, <<T5, T4, T3>>, <<T6, T7, T8>>, <<T8, T7, T6>>}
-QuickScriptSets == {<<S1>>, <<S2>>, <<T1, T2>>, <<T2, T1>>, <<T3, T4>>, <<T4, T5>>, <<T6, T7, T8>>}
+(* tick().repeat(n) and tick().until(condition) *)
+T9 == << <<"set", "a", 1>>, <<"repeat", 2>>, <<"time">>, <<"get", "rq">>, <<"until", "q">>, <<"time">>, <<"get", "r">>, <<"set", "b", 1>>,
+         <<"until", "y">>, <<"time">>, <<"repeat", 1>>, <<"get", "mem">> >>
+T10 == << <<"until", "r">>, <<"time">>, <<"set", "a", 1>>, <<"repeat", 3>>, <<"get", "q">>, <<"time">> >>
+AllScriptSets == {<<S1>>, <<S2>>, <<S3>>, <<T1, T2>>, <<T2, T1>>, <<T3, T4>>, <<T4, T3>>, <<T4, T5>>, <<T5, T4, T3>>, <<T6, T7, T8>>, <<T8, T7, T6>>,
+                  <<T9>>, <<T10, T9>>, <<T9, T4>>}
+QuickScriptSets == {<<S1>>, <<S2>>, <<T1, T2>>, <<T2, T1>>, <<T3, T4>>, <<T4, T5>>, <<T6, T7, T8>>, <<T9>>, <<T10, T9>>}
 OneScriptSet == {<<S1>>}
 TwoTbSets == {<<T1, T2>>}
 AllFns == 0..15
